@@ -5,6 +5,8 @@ from concurrent.futures import ThreadPoolExecutor
 
 VERIF = os.path.dirname(os.path.dirname(os.path.abspath(__file__)))
 REPO = os.environ.get('VERIF_REPO', '/repo')
+# where build output, evidence and replay files go (default: /verif itself; mutation runs use a scratch root)
+OUT = os.environ.get('VERIF_OUT', VERIF)
 SRC = os.path.join(REPO, 'src')
 COMMON = os.path.join(VERIF, 'engine', 'common')
 SIMW = os.path.join(VERIF, 'engine', 'simw')
@@ -42,7 +44,7 @@ class Ctx:
         self.tier = tier
         self.seed = seed
         self.t0 = time.time()
-        self.build_dir = os.path.join(VERIF, 'build', prop)
+        self.build_dir = os.path.join(OUT, 'build', prop)
         os.makedirs(self.build_dir, exist_ok=True)
         self.stats = {}
         self.samples = []
@@ -288,10 +290,10 @@ def finish(ctx, level_note_assumptions=None):
         print('KNOWN-FINDING: property=%s %s [sig=%s e.g. %s]' % (prop, k['text'], vs[0]['sig'], vs[0]['case']))
     rc = 0
     if unknown:
-        os.makedirs(os.path.join(VERIF, 'replays', prop), exist_ok=True)
+        os.makedirs(os.path.join(OUT, 'replays', prop), exist_ok=True)
         for v in unknown:
             h = hashlib.sha1((v['sig'] + v['case']).encode()).hexdigest()[:12]
-            path = os.path.join(VERIF, 'replays', prop, '%s.json' % h)
+            path = os.path.join(OUT, 'replays', prop, '%s.json' % h)
             json.dump({'property': prop, 'step': v['step'], 'args': v.get('args', []), 'case': v['case'], 'sig': v['sig'], 'detail': v['detail'],
                        'tier': ctx.tier, 'how': 'bin/check %s --replay %s' % (prop, path)}, open(path, 'w'), indent=1)
             print('VIOLATION property=%s replay=%s' % (prop, path))
@@ -332,8 +334,8 @@ def write_evidence(ctx, violations=0, extra=None):
         'wall_s': round(time.time() - ctx.t0, 2),
         'violations': int(violations),
     }
-    os.makedirs(os.path.join(VERIF, 'evidence'), exist_ok=True)
-    p = os.path.join(VERIF, 'evidence', ctx.prop + '.json')
+    os.makedirs(os.path.join(OUT, 'evidence'), exist_ok=True)
+    p = os.path.join(OUT, 'evidence', ctx.prop + '.json')
     tmp = p + '.tmp'
     json.dump(ev, open(tmp, 'w'), indent=1)
     os.replace(tmp, p)
